@@ -182,6 +182,15 @@ class TravBase(Check):
             yield run_script(real, lines + qs)
         if self.searches:
             return
+        if not quick and not getattr(self, "_k262_done", False):
+            # --- thorough tier only (the model needs a minute and a half for it): the complete graph on 262 vertices,
+            #     links created in a shuffled order: the pending stack of the iterative DFS passes 65536 entries
+            self._k262_done = True
+            n = 262
+            pairs = [(i, j) for i in range(n) for j in range(i + 1, n)]
+            rng.shuffle(pairs)
+            lines = ["reset"] + ["vertex V"] * n + ["edge U V%d V%d" % pq for pq in pairs]
+            yield run_script(real, lines + ["dfti - V0 0 1 - - list", "bft - V0 0 1 - - list"])
         # --- dense graph ---
         nv, deg = (130, 60) if quick else (170, 80)
         lines = ["reset"] + ["vertex V"] * nv
